@@ -174,6 +174,28 @@ func (c *specCtx) eval(x SExpr) (Val, types.Type) {
 		oc.heap = c.oldHeap
 		return oc.eval(n.X)
 	case *SUn:
+		if n.Op == "&" {
+			// address of a field of a heap object: &p.f
+			sel, ok := n.X.(*SSel)
+			if !ok {
+				c.fail("& needs a field selector")
+			}
+			bv, bt := c.eval(sel.X)
+			p, isPtr := bt.Underlying().(*types.Pointer)
+			if !isPtr {
+				c.fail("& of a field of a non-pointer")
+			}
+			obj, path := lookupFieldAnyPkg(bt, sel.Name)
+			if obj == nil || len(path) != 1 {
+				c.fail("&: cannot resolve direct field %s", sel.Name)
+			}
+			f := p.Elem().Underlying().(*types.Struct).Field(path[0])
+			px := c.e.ptrOf(bv, p.Elem())
+			np := *px
+			np.Path = px.Path + "." + f.Name()
+			np.PType = f.Type()
+			return Val{T: []*Term{tb.Int(-3)}, Ann: map[string]Ann{"": &np}}, types.NewPointer(f.Type())
+		}
 		v, t := c.eval(n.X)
 		if n.Op == "*" {
 			p, ok := t.Underlying().(*types.Pointer)
@@ -756,16 +778,11 @@ func (c *specCtx) call(n *SCall) (Val, types.Type) {
 		var ts []*Term
 		for i := range n.Args {
 			v, t := arg(i)
-			if t != nil {
-				v = c.e.flatten(c.st, t, v)
+			if t != nil && !isUntypedNil(t) && t != untypedInt && len(Leaves(t)) == len(c.e.flatten(c.st, t, v).T) {
+				ts = append(ts, c.e.ghostArgs(c.st, t, v)...)
+				continue
 			}
-			// slice capacity is irrelevant for spec functions
-			if t != nil {
-				if _, isSl := t.Underlying().(*types.Slice); isSl && len(v.T) == 4 {
-					v = Val{T: v.T[:3]}
-				}
-			}
-			ts = append(ts, v.T...)
+			ts = append(ts, intTerms(tb, v.T)...)
 		}
 		gpkg := c.e.Pkgs[gf.Pkg].Types
 		rs := SInt
@@ -775,6 +792,17 @@ func (c *specCtx) call(n *SCall) (Val, types.Type) {
 			rt = boolType
 		} else if gf.Ret != "" && gf.Ret != "int" {
 			rt = c.e.resolveType(gpkg, gf.Ret)
+			ls := Leaves(rt)
+			if len(ls) > 1 {
+				out := Val{T: make([]*Term, len(ls))}
+				for i, l := range ls {
+					out.T[i] = tb.App("ghost_"+name+l.Path, l.Sort, ts...)
+				}
+				return out, rt
+			}
+			if len(ls) == 1 {
+				rs = ls[0].Sort
+			}
 		}
 		return scalar(tb.App("ghost_"+name, rs, ts...)), rt
 	}
